@@ -21,6 +21,7 @@ PW = shard_int("PW", 0)
 NOISE = shard_int("NOISE", 0)
 EXPN = shard_int("EXPN", 0)  # 1: no expected name configured
 BADPW = shard_int("BADPW", 0)  # 1: the device flags the password invalid
+NLEN = shard_int("NLEN", 2)  # bound on the length of the device name / expected name
 TAIL = shard_int("TAIL", 0)  # what follows the responses at once: 0 nothing, 1 a DisconnectRequest in the same chunk, 2 EOF in the same loop turn
 ORDER_NAMES = ["hello+connect in one chunk", "hello, loop turn, connect", "connect before hello", "hello and connect as two chunks in one turn"]
 
@@ -53,8 +54,8 @@ def h06(major: int, minor: int, name: str, expected: Optional[str], invalid_pass
     """
     pre: 0 <= major < 2**32 and 0 <= minor < 2**32
     pre: major <= 2 or minor < 10
-    pre: len(name) <= 2
-    pre: expected is None or 1 <= len(expected) <= 2
+    pre: len(name) <= NLEN
+    pre: expected is None or 1 <= len(expected) <= NLEN
     pre: (expected is None) == (EXPN == 1)
     pre: invalid_password == (BADPW == 1)
     post: _
@@ -203,6 +204,12 @@ def shards(tier: str) -> list:
                                         "cond_timeout": 600, "path_timeout": 60,
                                         "desc": f"{'noise' if noise else 'plaintext'}, {ORDER_NAMES[order]}, login={'on' if login else 'off'}, password {'set' if pw else 'unset'}, "
                                                 f"expected name {'unset' if expn else 'set'}, password verdict {'invalid' if badpw else 'ok'}; symbolic versions and names"})
+    if tier != "quick":
+        for expn in (0, 1):
+            for badpw in (0, 1):
+                out.append({"fn": "h06", "env": {"ORDER": 0, "LOGIN": 1, "PW": 0, "NOISE": 0, "EXPN": expn, "BADPW": badpw, "NLEN": 3},
+                            "cond_timeout": 1500, "path_timeout": 60,
+                            "desc": f"plaintext, hello+connect in one chunk, names of up to 3 characters, expected name {'unset' if expn else 'set'}, password verdict {'invalid' if badpw else 'ok'}"})
     # the device closes right behind its answers (DisconnectRequest in the same chunk / EOF in the same turn):
     # a rejected connect must still report the specific error
     for noise in (0, 1):
@@ -217,7 +224,7 @@ def shards(tier: str) -> list:
 
 
 BOUNDS = {"quick": "major in [0, 2^32), minor in [0, 2^32) for supported majors and [0, 10) for unsupported ones (there the minor only enters the error text, whose decimal rendering forks per digit count); device name and expected name of length <= 2 (any characters); password verdict symbolic; 4 response orders/chunkings; login on/off; plaintext and noise",
-          "thorough": "adds password set/unset and all orders on noise"}
+          "thorough": "adds password set/unset, all orders on noise, names of up to 3 characters"}
 OUTSIDE = ["names longer than 2 characters", "protobuf decoding of the responses (doubles carry the symbolic field values through the real dispatch path)", "noise keys other than the fixed test key"]
 ASSUMPTIONS = ["pbstub doubles for HelloResponse/ConnectResponse", "SimLoop/SimTransport", "empty device name with an expected name configured is accepted either way (the statement does not cover it)",
                "when several conditions fail, any of the corresponding specific errors is accepted"]
